@@ -11,6 +11,8 @@ from .facts import strip, cval, walk, show, callee_name, children
 from .ival import Analysis, AV, Summaries, join
 from .core import Result, Broken, norm
 
+PURE_CALLS = {"strlen", "strcmp", "strncmp", "strcasecmp", "strncasecmp", "memcmp", "strchr", "strrchr", "memchr", "isspace", "isdigit",
+              "isalpha", "isalnum", "isupper", "islower", "isgraph", "isprint", "tolower", "toupper", "strspn", "strcspn", "strstr"}
 MEMWRITE = {"memcpy": 0, "memmove": 0, "memset": 0, "strcpy": 0, "strncpy": 0}
 
 
@@ -58,11 +60,56 @@ def is_deref_store(lv):
     return False
 
 
+def param_writers(prog):
+    """{function key: set of parameter positions} through which the function stores (itself or through callees); cached"""
+    wr = getattr(prog, "_param_writers", None)
+    if wr is not None:
+        return wr
+    fs = [f for f in prog.functions.values() if not f.nocfg]
+    wr = {}
+    for f in fs:
+        pos = {p["id"]: j for j, p in enumerate(f.params)}
+        for b, i, n in f.walk_all():
+            tgt = None
+            if n.get("k") == "bin" and n.get("op", "").endswith("=") and n["op"] not in ("==", "!=", "<=", ">="):
+                tgt = n["a"]
+            elif n.get("k") == "un" and n.get("op") in ("++", "--"):
+                tgt = n["e"]
+            if tgt is not None and is_deref_store(tgt):
+                r = root_of(tgt)
+                if r in pos:
+                    wr.setdefault(f.key(), set()).add(pos[r])
+            if n.get("k") == "call" and callee_name(n) in MEMWRITE and n.get("args"):
+                r = root_of(n["args"][MEMWRITE[callee_name(n)]])
+                if r in pos:
+                    wr.setdefault(f.key(), set()).add(pos[r])
+    changed = True
+    while changed:
+        changed = False
+        for f in fs:
+            pos = {p["id"]: j for j, p in enumerate(f.params)}
+            if not pos:
+                continue
+            for b, i, e in f.elements():
+                if e.get("k") != "call":
+                    continue
+                for g in prog.resolve_call(f, e):
+                    for j in wr.get(g.key(), ()):
+                        if j < len(e.get("args", [])):
+                            r = root_of(e["args"][j])
+                            if r in pos and f.T(strip(e["args"][j], all_casts=True).get("t")).get("k") == "ptr" and pos[r] not in wr.get(f.key(), set()):
+                                wr.setdefault(f.key(), set()).add(pos[r])
+                                changed = True
+    prog._param_writers = wr
+    return wr
+
+
 class Protected:
     """which variables point into the protected object: the object parameters and locals derived from them"""
 
-    def __init__(self, f, obj_ids, by_value_ok=False):
+    def __init__(self, f, obj_ids, by_value_ok=False, prog=None):
         self.f = f
+        self.prog = prog
         self.ids = set(obj_ids)
         changed = True
         while changed:
@@ -126,6 +173,25 @@ class Protected:
         self._rv = {k: v for k, v in rv.items() if k not in bad and v is not None}
         return self._rv
 
+    def _used_calls(self):
+        """sids of calls whose result is looked at (they occur inside another element or a branch condition)"""
+        u = getattr(self, "_uc", None)
+        if u is None:
+            u = set()
+            for b in self.f.blocks.values():
+                roots = list(b.el)
+                if b.term and b.term.get("cond") is not None:
+                    roots.append({"k": "cond-root", "e": b.term["cond"]})
+                    for m in walk(b.term["cond"]):
+                        if m.get("k") == "call" and "sid" in m:
+                            u.add(m["sid"])
+                for e in b.el:
+                    for m in walk(e):
+                        if m is not e and m.get("k") == "call" and "sid" in m:
+                            u.add(m["sid"])
+            self._uc = u
+        return u
+
     def store_sites(self, el):
         """(node, description) for stores into the protected object inside element el"""
         out = []
@@ -144,6 +210,19 @@ class Protected:
             elif k == "call" and callee_name(n) in MEMWRITE and n.get("args"):
                 if root_of(n["args"][MEMWRITE[callee_name(n)]]) in self.ids:
                     out.append(n)
+            elif k == "call" and self.prog is not None and n.get("fn") and n.get("args"):
+                # a callee that writes through the pointer it is handed and has no way to refuse: an unconditional store
+                wr = param_writers(self.prog)
+                for g in self.prog.resolve_call(self.f, n):
+                    if g.nocfg or (_can_fail(g) and n.get("sid") in self._used_calls()):
+                        continue          # a refusal of the callee that the function looks at is a failure discovered later
+                    for j in wr.get(g.key(), ()):
+                        if j < len(n["args"]) and root_of(n["args"][j]) in self.ids and self.f.T(strip(n["args"][j], all_casts=True).get("t")).get("k") == "ptr":
+                            out.append(n)
+                            break
+                    else:
+                        continue
+                    break
         return out
 
 
@@ -227,7 +306,7 @@ def deciding_conditions(f, bid):
 
 
 def check_function(prog, res, f, obj_ids, is_error, label=None, summaries=None, ignore_fields=()):
-    prot = Protected(f, obj_ids)
+    prot = Protected(f, obj_ids, prog=prog)
     PK = Analysis.PK
     cav = call_assigned_vars(f)
 
@@ -277,11 +356,13 @@ def check_function(prog, res, f, obj_ids, is_error, label=None, summaries=None, 
                         decided_by_touch = True
                     if nn.get("k") == "ref" and nn["d"].get("id") in cav_t:
                         decided_by_touch = True
+            # calls that only look at their arguments could have been made before the store: they do not excuse it
+            pure_sids = {m["sid"] for bb, ii, m in f.walk_all() if m.get("k") == "call" and "sid" in m and callee_name(m) in PURE_CALLS}
             for c in conds:
                 for n in walk(c):
-                    if n.get("k") == "call" and n.get("sid") in calls:
+                    if n.get("k") == "call" and n.get("sid") in calls and n.get("sid") not in pure_sids:
                         later = True
-                    if n.get("k") == "ref" and n["d"].get("id") in cav and cav[n["d"]["id"]] & calls:
+                    if n.get("k") == "ref" and n["d"].get("id") in cav and (cav[n["d"]["id"]] & calls) - pure_sids:
                         later = True
             for (sb, si) in sorted(stores):
                 sel = f.blocks[sb].el[si]
@@ -359,11 +440,30 @@ def errno_set_before(f, e):
 
 def run_layout(prog, ctx=None):
     res = Result("ERRFX")
+    work = []
     for kind in ("axis", "line", "text", "graph", "world"):
         f = prog.func("mpt_%s_set" % kind)
         if f is None:
             raise Broken("anchor missing: mpt_%s_set" % kind)
-        check_function(prog, res, f, [f.params[0]["id"]], neg_error)
+        work.append((f, 0))
+    # the helpers a setter hands a pointer into its object to (colour / attribute / string parsers) are held to the same rule:
+    # a failing helper call is "failure discovered after the store" for the setter, so the helper itself must refuse cleanly
+    seen = set()
+    while work:
+        f, idx = work.pop(0)
+        if (f.key(), idx) in seen or len(f.params) <= idx:
+            continue
+        seen.add((f.key(), idx))
+        check_function(prog, res, f, [f.params[idx]["id"]], neg_error, label=None if idx == 0 else "%s[arg %d]" % (f.qn, idx))
+        prot = Protected(f, [f.params[idx]["id"]])
+        for b, i, e in f.elements():
+            if e.get("k") != "call":
+                continue
+            for j, a in enumerate(e.get("args", [])):
+                if root_of(a) in prot.ids and f.T(strip(a, all_casts=True).get("t")).get("k") == "ptr":
+                    for g in prog.resolve_call(f, e):
+                        if not g.nocfg and g.file.startswith("mptplot/") and any(x.get("k") == "ret" and x.get("e") is not None and (cval(x["e"]) or 0) < 0 for bb, ii, x in g.elements()):
+                            work.append((g, j))
     return res
 
 
@@ -616,3 +716,4 @@ def run_mustcheck(prog, ctx=None):
     if matched < len(ref) * 3 // 4:
         raise Broken("MUSTCHECK: only %d of the %d calling functions of the reference table still exist" % (matched, len(ref)))
     return res
+
